@@ -32,16 +32,17 @@ var c03Inl = []inl{
 	{"a-js", func(t *ora.Tok) string { return "<a href=\"javascript:void(0)\">" + t.W(2) + "</a>" }},
 	{"a-jsb", func(t *ora.Tok) string { return "<a href=\"javascript:go(1)\"><b>" + t.W(1) + "</b></a>" }},
 	{"b-i", func(t *ora.Tok) string { return "<b><i>" + t.W(1) + "</i> " + t.W(1) + "</b>" }},
+	{"a-js2", func(t *ora.Tok) string { return "<a href=\"javascript:void(0)\">" + t.W(1) + "<i>" + t.W(1) + "</i></a>" }},
+	{"a-js3", func(t *ora.Tok) string { return "<a href=\"javascript:void(0)\">" + t.W(1) + "<br>" + t.W(1) + "</a>" }},
 	// thorough only:
 	{"i", wrapInl("i")},
 	{"em", wrapInl("em")},
 	{"strong", wrapInl("strong")},
 	{"u", wrapInl("u")},
 	{"a-rel", func(t *ora.Tok) string { return "<a href=\"rel/" + t.U() + ".html\">" + t.W(2) + "</a>" }},
-	{"a-js2", func(t *ora.Tok) string { return "<a href=\"javascript:void(0)\">" + t.W(1) + "<i>" + t.W(1) + "</i></a>" }},
 }
 
-const c03QuickSyms = 11
+const c03QuickSyms = 13
 
 var c03Contexts = []string{"body", "div", "li", "blockquote", "td-layout", "td-data"}
 var c03Surround = []string{"kept", "dropped", "between"}
@@ -227,7 +228,7 @@ func init() {
 	eng.Register(&eng.Prop{
 		ID:        "C03",
 		DesignRef: "§5 C03",
-		Rule: "one probe paragraph whose children are every sequence of length <= 4 over 11 inline symbols (quick; full-length sequences in 3 of the 18 context/surrounding pairs, shorter ones in all 18) / <= 5 over 17 symbols in all 18 pairs (thorough): text short/long, br, b, span, font, code, a[abs], a[javascript:] with one text child, a[javascript:] with element child, nested b>i (+ i, em, strong, u, a[rel], a[javascript:] with two children); " +
+		Rule: "one probe paragraph whose children are every sequence of length <= 4 over 13 inline symbols (quick; full-length sequences in 3 of the 18 context/surrounding pairs, shorter ones in all 18) / <= 5 over 18 symbols in all 18 pairs (thorough): text short/long, br, b, span, font, code, a[abs], a[javascript:] with one text child, a[javascript:] with element child, nested b>i, a[javascript:] with text + element child, a[javascript:] with text + br + text (+ i, em, strong, u, a[rel]); " +
 			"contexts {body, div, li, blockquote, layout-table cell, data-table cell} x surroundings {among kept paragraphs, among dropped link clusters, between}. Oracle: for every <p> of the parsed input built only from text, br and plain inline/link elements, its visible words are all in Text or none is. " +
 			"Non-trivial = probe with >= 2 children including a text leaf and an element.",
 		Enumerate: c03Enumerate,
